@@ -218,23 +218,27 @@ def check_gctm(ctx, pc, rng, record):
     h_L, c_L = pure_call(ctx, "GCTM", pc.GCTM, h, p, L)
     ctx.check(len(h_L) == L and len(c_L) == L, "GCTM:layer_count", "returned %d/%d layers" % (len(h_L), len(c_L)), wit)
     ctx.check(bool(np.all(np.asarray(c_L) >= 0) and np.all(np.asarray(h_L) >= 0)), "GCTM:bounds", "negative strength or height", wit)
-    if not ctx.check(len(record) == 1, "GCTM:optimiser_not_observed", "the optimiser wrapper saw %d calls" % len(record), wit):
-        return
-    ctx.count("gctm_minimize_calls_observed")
-    rec = record[0]
-    f0, f1 = rec["f_x0"], rec["f_res"]
-    ctx.check(f1 <= f0 * (1 + 1e-12), "GCTM:objective_increased", "objective went from %.3g to %.3g" % (f0, f1), wit)
+    if len(record) != 1:
+        # the optimiser is reached some other way than through the module attribute: nothing to observe (the run is
+        # inconclusive for this clause if that is always so -- REQUIRED_COUNTERS)
+        ctx.count("gctm_optimiser_not_observed")
+    else:
+        ctx.count("gctm_minimize_calls_observed")
+        rec = record[0]
+        f0, f1 = rec["f_x0"], rec["f_res"]
+        ctx.check(f1 <= f0 * (1 + 1e-12), "GCTM:objective_increased", "objective went from %.3g to %.3g" % (f0, f1), wit)
+    success = bool(record[0]["success"]) if len(record) == 1 else True
     hs, cs = hf / 10000.0, np.asarray(p, float) / 100e-15
     mom_in = np.array([(cs * hs ** i).sum() for i in range(2 * L - 1)])
     mom_out = np.array([(np.asarray(c_L) / 100e-15 * (np.asarray(h_L) / 10000.0) ** i).sum() for i in range(2 * L - 1)])
     relerr = float(np.abs(mom_out - mom_in).max() / np.abs(mom_in).max())
-    ctx.metric("gctm_moment_relerr" + ("_success" if rec["success"] else "_nosuccess"), relerr)
+    ctx.metric("gctm_moment_relerr" + ("_success" if success else "_nosuccess"), relerr)
     # the optimiser weights the high moments far more than moment 0 (heights are scaled to ~2.5, so h^6 ~ 250):
     # total Cn2 errors of 4-15 % were observed on the unchanged tree with SciPy reporting convergence. Only a gross
     # loss (half of the turbulence) is judged; the value is reported as a metric.
     ctx.metric("gctm_total_cn2_relerr", abs(mom_out[0] - mom_in[0]) / mom_in[0])
     ctx.close("gctm_total_cn2", mom_out[0], mom_in[0], 0.5 * mom_in[0], "GCTM:total_cn2", wit, scale=mom_in[0])
-    if rec["success"]:
+    if success:
         ctx.check(relerr <= 0.1, "GCTM:moments", "moments reproduced to %.3g only (optimiser reported success)" % relerr, wit)
 
 
